@@ -13,6 +13,12 @@ VARRAY_TYPES = {"VIntArray": "IntArray", "VFloatArray": "FloatArray", "VV2iArray
 STRING_TYPES = ["StringArray", "WstringArray"]
 STRINGS = ["", "a", "b", "ab", "ba", "abc", "a b", "x" * 40, "A", "0"]
 
+
+def sval(j, op):
+    """string number j of the op's alphabet: the 10 hand-picked ones, then (long runs only) 's10', 's11', ..."""
+    j %= op.get("amod", 10)
+    return STRINGS[j] if j < len(STRINGS) else "s%d" % j
+
 FAMILY_OPS = {
     "matrix": [(6, "m_new"), (8, "m_row"), (6, "m_slice"), (7, "m_set_s"), (7, "m_set_v"), (5, "m_set_m"), (5, "m_iop"), (4, "m_bad"),
                (6, "get"), (5, "set_s"), (4, "slice"), (5, "mask"), (4, "alias"), (4, "iop"), (3, "mv"), (3, "ro"), (6, "release"), (2, "gcp")],
@@ -27,17 +33,22 @@ FAMILY_OPS = {
 
 
 def gen_family_op(r, fam, o, op, maxn, gen_slice):
+    # L: largest dimension; 5 in ordinary runs, maxn in the few "long" runs of the size swarm (driver.gen_plan)
+    L = maxn if maxn > 12 else 5
+    big = L > 5
     if o in ("m_new", "d_new"):
         op["t"] = r.choice(sorted(MATRIX_TYPES if o == "m_new" else A2D_TYPES))
-        op["r"], op["c"] = r.range(0 if o == "d_new" else 1, 5), r.range(0 if o == "d_new" else 1, 5)
+        op["r"], op["c"] = r.range(0 if o == "d_new" else 1, L), r.range(0 if o == "d_new" else 1, L)
     elif o in ("m_row", "v_row", "s_get"):
-        op["i"] = r.range(-6, 5)
+        op["i"] = r.range(-L - 1, L)
     elif o in ("m_slice", "v_slice", "s_slice"):
-        op["s"] = gen_slice(r, 5)
+        op["s"] = gen_slice(r, L)
     elif o in ("m_set_s", "m_set_v", "m_set_m", "v_set_row", "v_set_v", "s_set", "s_set_v", "v_size", "v_resize", "vsz_set", "vsz_get"):
-        op["idx"] = r.range(-6, 5) if r.chance(0.5) else gen_slice(r, 5)
+        op["idx"] = r.range(-L - 1, L) if r.chance(0.5 if not big else 0.2) else gen_slice(r, L)
         op["dlen"] = r.weighted([(8, 0), (1, 1), (1, -1)])
         op["k"] = r.below(64)
+        if big:
+            op["amod"] = r.choice([10, 37, 101])
     elif o in ("m_bad", "v_bad", "s_bad", "d_bad"):
         op["idx"] = r.choice([2 ** 31, -2 ** 31, 2 ** 32, 2 ** 32 + 1, -2 ** 32, 2 ** 63 - 1, -2 ** 63, 2 ** 64, -2 ** 64, 7, -8])
         op["how"] = r.choice(["get", "set", "set_v"])
@@ -45,45 +56,51 @@ def gen_family_op(r, fam, o, op, maxn, gen_slice):
     elif o == "d_comp":
         op["c"] = r.below(4)
     elif o in ("d_ifelse", "d_binop"):
-        op["m"] = [r.choice([0, 1, 1, 0, 2, -1]) for _ in range(30)]
+        op["m"] = [r.choice([0, 1, 1, 0, 2, -1]) for _ in range(30 if not big else L * L + 5)]
         op["form"] = r.choice(["scalar", "a2d", "a2d", "badshape"])
         op["name"] = r.choice(["__add__", "__sub__"])
     elif o in ("m_iop", "d_iop"):
         op["name"] = r.choice(["__iadd__", "__isub__"])
         op["rhs"] = r.choice(["scalar", "same", "same", "badshape"])
     elif o in ("d_item",):
-        op["i"], op["j"] = r.range(-6, 5), r.range(-6, 5)
+        op["i"], op["j"] = r.range(-L - 1, L), r.range(-L - 1, L)
         op["keep"] = r.chance(0.5)
     elif o in ("d_slice", "d_set_s", "d_set_a", "d_set_1d"):
         def fwd():
             if r.chance(0.4):
-                return r.range(-5, 4)
-            s = gen_slice(r, 5)
+                return r.range(-L, L - 1)
+            s = gen_slice(r, L)
             s[2] = r.choice([None, 1, 2, 3])
             return s
         op["x"], op["y"] = fwd(), fwd()
         op["dlen"] = r.weighted([(8, 0), (1, 1), (1, -1)])
     elif o in ("d_mask_get", "d_mask_set"):
-        op["m"] = [r.choice([0, 1, 1, 0, 2, -1]) for _ in range(30)]      # any non-zero entry selects
+        op["m"] = [r.choice([0, 1, 1, 0, 2, -1]) for _ in range(30 if not big else L * L + 5)]      # any non-zero entry selects
         op["form"] = r.choice(["scalar", "a2d", "full1d", "packed1d", "bad1d"])
         op["dx"] = r.weighted([(9, 0), (1, 1)])
     elif o in ("v_new",):
         op["t"] = r.choice(sorted(VARRAY_TYPES))
-        op["n"] = r.range(0, 5)
-        op["sizes"] = [r.range(0, 4) for _ in range(5)]
+        op["n"] = r.range(0, L)
+        op["sizes"] = [r.range(0, 4 if not big else 12) for _ in range(L)]
         op["how"] = r.choice(["sizes", "uniform", "empty"])
     elif o in ("v_mask", "s_mask", "s_set_m", "v_set_m"):
-        op["m"] = [r.choice([0, 1, 1, 0, 2, -1]) for _ in range(8)]        # any non-zero entry selects
+        op["m"] = [r.choice([0, 1, 1, 0, 2, -1]) for _ in range(L + 3)]        # any non-zero entry selects
         op["dlen"] = r.weighted([(9, 0), (1, 1)])
         op["k"] = r.below(64)
+        if big:
+            op["amod"] = r.choice([10, 37, 101])
         op["form"] = r.choice(["scalar", "full", "packed"])
     elif o == "s_new":
         op["t"] = r.choice(STRING_TYPES)
-        op["n"] = r.range(0, 6)
+        op["n"] = r.range(0, L + 1)
         op["k"] = r.below(64)
         op["uniform"] = r.chance(0.3)
+        if big:
+            op["amod"] = r.choice([10, 37, 101])
     elif o == "s_eq":
         op["k"] = r.below(64)
+        if big:
+            op["amod"] = r.choice([10, 37, 101])
         op["ne"] = r.chance(0.5)
         op["vs"] = r.choice(["string", "array"])
     return op
@@ -1086,14 +1103,14 @@ class FamilyMixin:
         tn, n = op["t"], op["n"]
         cls = getattr(imath, tn)
         if op["uniform"]:
-            s0 = STRINGS[op["k"] % len(STRINGS)]
+            s0 = sval(op["k"], op)
             a = cls(s0, n)
             vals = [s0] * n
         else:
             a = cls(n)
             vals = [""] * n
             for i in range(n):
-                s = STRINGS[(op["k"] + i * 3) % len(STRINGS)]
+                s = sval((op["k"] + i * 3), op)
                 a[i] = s
                 vals[i] = s
         h = self.Handle(a, "str", tn, self.new_store(tn, vals), range(n), True)
@@ -1151,7 +1168,7 @@ class FamilyMixin:
         self.sig_ctx = ("string-setitem-scalar", h.hkind(), h.tname)
         n = len(h.idx)
         sel = self.rowsel(n, op["idx"])
-        s = STRINGS[op["k"] % len(STRINGS)]
+        s = sval(op["k"], op)
         got = self.call(h.real.__setitem__, self.key_of(op["idx"]), s)
         bad = sel is None or not h.writable
         if not h.writable:
@@ -1174,7 +1191,7 @@ class FamilyMixin:
         cnt = sum(1 for b in bits[:n] if b)
         badlen = len(bits) != n
         if form == "scalar":
-            s = STRINGS[op["k"] % len(STRINGS)]
+            s = sval(op["k"], op)
             got = self.call(h.real.__setitem__, self.make_mask(bits), s)
             bad = badlen or not h.writable
             self.expect(got, bad, "s[mask] = %r (mask %d, len %d, writable %s)" % (s, len(bits), n, h.writable))
@@ -1187,7 +1204,7 @@ class FamilyMixin:
             src = getattr(imath, h.tname)(ln)
             sv = []
             for i in range(ln):
-                s = STRINGS[(op["k"] + i) % len(STRINGS)]
+                s = sval((op["k"] + i), op)
                 src[i] = s
                 sv.append(s)
             got = self.call(h.real.__setitem__, self.make_mask(bits), src)
@@ -1213,7 +1230,7 @@ class FamilyMixin:
         src = getattr(imath, h.tname)(ln)
         sv = []
         for i in range(ln):
-            s = STRINGS[(op["k"] * 3 + i) % len(STRINGS)]
+            s = sval((op["k"] * 3 + i), op)
             src[i] = s
             sv.append(s)
         got = self.call(h.real.__setitem__, self.key_of(op["idx"]), src)
@@ -1233,14 +1250,14 @@ class FamilyMixin:
         n = len(h.idx)
         mine = [h.store.vals[k] for k in h.idx]
         if op["vs"] == "string":
-            s = STRINGS[op["k"] % len(STRINGS)]
+            s = sval(op["k"], op)
             got = self.call((h.real.__ne__ if op["ne"] else h.real.__eq__), s)
             want = [int((x != s) if op["ne"] else (x == s)) for x in mine]
         else:
             o = getattr(imath, h.tname)(n)
             ov = []
             for i in range(n):
-                s = mine[i] if (op["k"] + i) % 2 else STRINGS[(op["k"] + i) % len(STRINGS)]
+                s = mine[i] if (op["k"] + i) % 2 else sval((op["k"] + i), op)
                 o[i] = s
                 ov.append(s)
             got = self.call((h.real.__ne__ if op["ne"] else h.real.__eq__), o)
